@@ -66,6 +66,14 @@ pub const POOL4: &[(&str, &str)] = &[
     /* 36 */ ("(h (f $1 $2) ?a)", "(h ?a (f $2 $1))"),
     /* 37 */ ("(h (u ?a) (u ?a))", "(u (h ?a ?a))"),
     /* 38 */ ("(lam $1 (h ?a (var $1)))", "(lam $1 (h (var $1) ?a))"),
+    // pattern slots whose NAMES look like e-graph slots ($f<n> is how generated slots print; a pattern taken from a printed or
+    // extracted term has such names): the translation of a match into pattern names must not confuse them with the class's own
+    /* 39 */ ("(h ?x (var $f1))", "(h (var $f1) ?x)"),
+    /* 40 */ ("(lam $f2 ?b)", "(lam $f2 (u ?b))"),
+    /* 41 */ ("(h ?x (f $f0 $f3))", "(h (f $f3 $f0) ?x)"),
+    /* 42 */ ("(k $f1 $f0 ?a $f2)", "(k $f2 $f0 ?a $f1)"),
+    /* 43 */ ("(let $f0 ?b (var $f4))", "(let $f0 (u ?b) (var $f4))"),
+    /* 44 */ ("(h (var $f5) ?x)", "(h ?x (var $f5))"),
 ];
 
 /// rules OUTSIDE the scope (documented limitation `redundancy_matching_bug`: a bound slot name bound twice, or also used
